@@ -129,6 +129,12 @@ pub fn gen_pure(rng: &mut Rng) -> PCase {
                     if rng.chance(1, 6) { x += 0.5; }
                     if rng.chance(1, 6) { y -= 0.5; }
                     if rng.chance(1, 12) { x += 0.25; }
+                    // a master less than half a unit away from the default, possibly across a rounding boundary
+                    if li > 0 && rng.chance(1, 5) {
+                        let (_, x0, y0) = pos[0];
+                        x = x0 + rng.range(-3, 3) as f64 / 8.0;
+                        y = y0 + rng.range(-3, 3) as f64 / 8.0;
+                    }
                     pos.push((li, x, y));
                 }
             }
@@ -396,6 +402,8 @@ fn rename_design(d: &mut design::Design, map: &BTreeMap<String, String>) {
 }
 
 fn jitter(rng: &mut Rng, v: f64) -> f64 {
+    // sometimes less than half a unit away from the default master's value (possibly across a rounding boundary)
+    if rng.chance(1, 5) { return v + rng.range(-3, 3) as f64 / 8.0; }
     let mut o = v + rng.range(-60, 60) as f64;
     if rng.chance(1, 5) { o += 0.5; }
     if rng.chance(1, 12) { o += 0.25; }
@@ -480,6 +488,8 @@ pub fn gen_e2e(rng: &mut Rng) -> E2ECase {
             let (mut x, mut y) = fresh(rng);
             if rng.chance(1, 8) { x += 0.5; }
             if rng.chance(1, 8) { y += 0.5; }
+            if rng.chance(1, 6) { x += rng.range(1, 7) as f64 / 8.0; }
+            if rng.chance(1, 6) { y += rng.range(1, 7) as f64 / 8.0; }
             (a.to_string(), x, y)
         }).collect();
     }
@@ -487,12 +497,26 @@ pub fn gen_e2e(rng: &mut Rng) -> E2ECase {
     let base_anchors: BTreeMap<String, Vec<(String, f64, f64)>> = d.masters[dm].glyphs.iter().map(|(n, g)| (n.clone(), g.anchors.clone())).collect();
     let statics: HashSet<(String, String)> = base_anchors.iter().flat_map(|(g, an)| an.iter().map(move |a| (g.clone(), a.0.clone())))
         .filter(|_| rng.chance(1, 4)).collect();
+    // "near" anchors: every master within half a unit of the default master, around a rounding boundary
+    let nears: HashSet<(String, String)> = base_anchors.iter().flat_map(|(g, an)| an.iter().map(move |a| (g.clone(), a.0.clone())))
+        .filter(|_| rng.chance(1, 6)).collect();
+    let base_anchors: BTreeMap<String, Vec<(String, f64, f64)>> = base_anchors.into_iter().map(|(g, an)| {
+        let an = an.into_iter().map(|(a, x, y)| if nears.contains(&(g.clone(), a.clone())) {
+            (a, x.floor() + rng.range(2, 6) as f64 / 8.0, y.floor() + rng.range(2, 6) as f64 / 8.0)
+        } else { (a, x, y) }).collect();
+        (g, an)
+    }).collect();
+    for (n, an) in &base_anchors { d.masters[dm].glyphs.get_mut(n).unwrap().anchors = an.clone(); }
     for (mi, m) in d.masters.iter_mut().enumerate() {
         if mi == dm { continue; }
         for (n, g) in m.glyphs.iter_mut() {
             let mut out = vec![];
             for (an, x, y) in &base_anchors[n] {
                 if variant != 2 && !m.sparse && rng.chance(1, 16) { continue; }
+                if nears.contains(&(n.clone(), an.clone())) {
+                    out.push((an.clone(), *x + rng.range(-3, 3) as f64 / 8.0, *y + rng.range(-3, 3) as f64 / 8.0));
+                    continue;
+                }
                 if statics.contains(&(n.clone(), an.clone())) { out.push((an.clone(), *x, *y)); }
                 else { out.push((an.clone(), jitter(rng, *x), jitter(rng, *y))); }
             }
